@@ -126,6 +126,21 @@ pub struct LibPkg {
     pub version: Option<String>,
     pub bytes: Vec<u8>,
     pub origin: &'static str,
+    /// for generated WAT packages: `(imports, exports)` with their shapes
+    pub shapes: Option<(Vec<(String, Shape)>, Vec<(String, Shape)>)>,
+}
+
+impl Shape {
+    /// structural subtyping of the shapes (an instance may offer more)
+    pub fn sub(&self, want: &Shape) -> bool {
+        match (self, want) {
+            (Shape::F0, Shape::F0) | (Shape::F1, Shape::F1) => true,
+            (Shape::Inst(have), Shape::Inst(want)) => {
+                want.iter().all(|(n, w)| have.iter().any(|(m, h)| m == n && h.sub(w)))
+            }
+            _ => false,
+        }
+    }
 }
 
 pub fn wit_component_bytes(wit: &str, world: &str) -> anyhow::Result<Vec<u8>> {
